@@ -104,6 +104,7 @@ structure Mesh where
   modified : List String := []
   dflt : Option (String × String) := none
   merged : List (String × String) := []
+  geometry : List (String × List String) := []   -- `GeometryList.geometry` (a dict: insertion order, one entry per name)
   deriving DecidableEq, Repr
 
 /-! ### vertex list -/
@@ -283,6 +284,16 @@ def delete (m : Mesh) (id : Nat) : Mesh := { m with deleted := id :: m.deleted }
 def mergePatches (m : Mesh) (master slave : String) : Mesh := { m with merged := m.merged ++ [(master, slave)] }
 def setDefault (m : Mesh) (name kind : String) : Mesh := { m with dflt := some (name, kind) }
 
+/-- `{**old, **{name: props}}`: an existing name keeps its place and gets the new value, a new name goes to the end -/
+def dictSet (g : List (String × List String)) (name : String) (props : List String) : List (String × List String) :=
+  match g with
+  | [] => [(name, props)]
+  | e :: rest => if e.1 = name then (name, props) :: rest else e :: dictSet rest name props
+
+/-- `Mesh.add_geometry({name: props})`; neither `clear()` nor `backport()` touch the geometry list -/
+def addGeometry (m : Mesh) (name : String) (props : List String) : Mesh :=
+  { m with geometry := dictSet m.geometry name props }
+
 def modify (m : Mesh) (n kind : String) (settings : Option (List String)) : Mesh :=
   { m with lists := { m.lists with patches := modifyPatch m.lists.patches n kind settings },
            modified := if n ∈ m.modified then m.modified else m.modified ++ [n] }
@@ -364,6 +375,7 @@ def Patch.descr (p : Patch) : String :=
 def render (m : Mesh) : String :=
   let pats := m.lists.patches.filter (fun p => !(p.sides.isEmpty && !(m.modified.contains p.name)))
   let dflt := match m.dflt with | some (n, k) => s!"{n}:{k}" | none => ""
+  "G[" ++ join ";" (m.geometry.map (fun e => s!"{e.1}:{join "|" e.2}")) ++ "]" ++
   "V[" ++ join ";" (m.lists.verts.map Vtx.descr) ++ "]B[" ++ join ";" (m.lists.blocks.map Block.descr) ++
   "]E[" ++ join ";" (m.lists.edges.map Edge.descr) ++ "]F[" ++ join ";" (m.lists.faces.map PFace.descr) ++
   "]P[" ++ join ";" (pats.map Patch.descr) ++ "]D[" ++ dflt ++
@@ -395,6 +407,7 @@ inductive Step where
   | setDefault (n kind : String)
   | merge (master slave : String)
   | write
+  | addGeometry (name : String) (props : List String)
   deriving Repr
 
 /-- one call; a rejected call (backport of a mesh that is not assembled) leaves the state alone -/
@@ -413,6 +426,7 @@ def step (m : Mesh) : Step → Mesh
   | .setDefault n k => setDefault m n k
   | .merge a b => mergePatches m a b
   | .write => (write m).1
+  | .addGeometry n ps => addGeometry m n ps
 
 def run (m : Mesh) (h : List Step) : Mesh := h.foldl step m
 
@@ -472,6 +486,7 @@ def parseStep? (s : String) : Option Step :=
   | ["def", n, k] => some (.setDefault n k)
   | ["mrg", a, b] => some (.merge a b)
   | ["wr"] => some .write
+  | ["geo", n, ps] => some (.addGeometry n (if ps = "0" then [] else ps.splitOn "|"))
   | _ => none
 
 def showDepot (m : Mesh) : String :=
